@@ -49,3 +49,29 @@ func cmdPaths(args []string) int {
 	fmt.Printf("%d paths trunc=%v\n", len(tr.Paths), tr.Trunc)
 	return 0
 }
+
+// cmdWriters prints the who-may-write sets of fields (table authoring aid).
+func cmdWriters(args []string) int {
+	p, err := Load("/repo", "")
+	if err != nil {
+		fmt.Fprintln(os.Stderr, err)
+		return 2
+	}
+	for _, q := range args {
+		f := p.Field(q)
+		if f == nil {
+			fmt.Println(q, ": not found")
+			continue
+		}
+		fmt.Printf("%s: %v\n", q, sortedKeys(boolKeys(p.writersOf(f))))
+	}
+	return 0
+}
+
+func boolKeys(m map[string][]*ssa.Store) map[string]bool {
+	o := map[string]bool{}
+	for k := range m {
+		o[k] = true
+	}
+	return o
+}
